@@ -152,12 +152,8 @@ Definition final_model (c : bcase) : bstate := fst (fst (brun (bbase c) (bh_ops 
 (* D08 (finish_module panicked after any successful convert_local_fn_to_import) is repaired: the conversion takes one
    off num_local_functions, the balance the assertion checks is kept (BuildProofs.brun_wfb / build_succeeds); the class
    is gone.  A finish_module that panics is still inside the domain and a failure. *)
-(* D02: import-section order and index order of the function imports disagree *)
-Definition known_D02 (c : bcase) : bool :=
-  match index_space (m_f (b_m (final_model c))) with
-  | Ok (l, _) => negb (increasing (flat_map (fun i => match it_imp i with Some k => if it_del i then [] else [k] | None => [] end) l))
-  | Panic _ => false
-  end.
+(* D02 (import-section order and index order of the function imports disagreed) is repaired: the import section is
+   emitted in index order; the class is gone. *)
 (* D06 (an import added / converted after parsing and then deleted stayed in the index space) is repaired:
    recalculate_ids drops every deleted item; the class is gone. *)
 
@@ -165,7 +161,7 @@ Definition K (n : N) (p : bcase -> bool) : N * (bcase -> bool) := (n, p).
 Definition cls (c : bcase) (l : list (N * (bcase -> bool))) : list N :=
   flat_map (fun kp : N * (bcase -> bool) => if snd kp c then [fst kp] else []) l.
 Definition verdict12 (c : bcase) : Util.verdict :=
-  (agree c, in_domain c, holds c, cls c [K 2 known_D02]).
+  (agree c, in_domain c, holds c, cls c []).
 Definition report_C12 := run_report verdict12.
 
 (* cases whose observation is the model's own output (refutation witnesses, non-vacuity examples) *)
